@@ -307,6 +307,27 @@ def run_history(ctx, hid, ops, table):
                 ctx.violation('merge into a scratch library raised %s'
                               % o['exc'], case, {'step': step})
                 return
+            # merging other data for the same group into the scratch target
+            # must not reach back into the source library (copy on merge)
+            from pgradd.ThermoChem import ThermochemGroup
+            for g in src:
+                ent = src[g]
+                if 'thermochem' in ent and ent['thermochem'].ND_H_ref \
+                        is not None:
+                    c = ent['thermochem']
+                    pert = ThermochemGroup(
+                        c.ND_H_ref + 1.0, c.ND_S_ref, dict(c.ND_Cp_data),
+                        c.T_ref, c.get_range())
+                    other = GroupLibrary(src.scheme, {g: {'thermochem':
+                                                          pert}})
+                    o2 = observe(target.Update, other, True)
+                    if 'exc' in o2:
+                        ctx.violation('overwrite-merge into a scratch '
+                                      'library raised %s' % o2['exc'], case,
+                                      {'step': step, 'group': str(g)})
+                        return
+                    ctx.count('overwrite_merges_after_copy')
+                    break
             # a default-constructed library must start empty every time
             probe = GroupLibrary(src.scheme)
             if len(probe) != 0 or probe.uq_contents:
